@@ -293,7 +293,7 @@ func executeSubscribe(ctx context.Context) error {
 	}
 	if s != "" {
 		// Convert SubscribeRequest to a client.Query
-		tq, err := cli.ParseSubscribeProto(*reqProto)
+		tq, err := cli.ParseSubscribeProto(s)
 		if err != nil {
 			log.Exitf("failed to parse gNMI SubscribeRequest text proto: %v", err)
 		}
